@@ -228,6 +228,50 @@ def run(oc, tier, seed, model_available, escalate):
             oc.violations.append({"input": {"marker": MK.hex(), "stream": stream.hex(), "blocksize": 65535, "loop": "get_next_entry + structural_adaptive_ecc.entry_fields"},
                                   "impl": {"entries": got, "error": res}, "required": {"entries": want},
                                   "what": "the scan loop of the whole-file tool (get_next_entry, then entry_fields on the same handle) does not yield every entry exactly once"})
+    # ---- and as the complete correction loops drive it: on an ecc file whose entries lost bytes at their tail (the last read of a track then
+    # runs into the next marker) every marker must still yield exactly one entry: files processed + files skipped = number of markers
+    import shutil
+    import ecc_scen as es
+    import ecc_util as eu
+    from props import C08 as c08
+    dl = os.path.join(common.scratch(), "c14loop")
+    for it in range((14 if tier == "quick" else 200) * (2 if escalate else 1)):
+        shutil.rmtree(dl, ignore_errors=True)
+        P = es.gen_params(rngl, small=True, erasures=False)
+        P.mbs = max(P.mbs, 20)
+        P.algo = rngl.choice([3, 4])
+        if not P.well_formed():
+            continue
+        tree = es.gen_tree(rngl, P, nfiles=rngl.randint(2, 4), maxsize=300)
+        if len(tree) < 2:
+            continue
+        root, ecc = os.path.join(dl, "root"), os.path.join(dl, "ecc.txt")
+        eu.write_tree(root, tree)
+        if eu.generate(P, root, ecc) != "0":
+            continue
+        data = open(ecc, "rb").read()
+        if eu.accidental(data, len(tree)):
+            continue
+        bounds = eu.entry_bounds(data)
+        new = data
+        for (s_, e_) in reversed(bounds[:-1]):
+            if rngl.random() < 0.7:
+                f_ = eu.parse_entry(data, s_, e_)
+                new = new[:s_] + c08.damage_entry(rngl, new[s_:e_], f_, s_, "tailcut") + new[e_:]
+        nmark = len(occurrences(new, MK))
+        if nmark != len(bounds):
+            continue
+        e2 = os.path.join(dl, "cut.txt")
+        open(e2, "wb").write(new)
+        rc, st, out, _txt = eu.correct(P, root, e2, os.path.join(dl, "out"))
+        oc.oracle_cases += 1
+        oc.count("complete correction loop on tail-cut entries (%s)" % P.tool)
+        if rc.startswith("exception") or st is None or st[0] + st[5] != nmark:
+            oc.violations.append({"input": {"params": P.describe(), "tree": {k: v.hex() for k, v in tree.items()}, "ecc": new.hex(), "markers": nmark},
+                                  "impl": {"exit": rc, "stats": st},
+                                  "what": "the correction loop did not visit every entry exactly once: files processed + skipped differs from the number "
+                                          "of entry markers (%d)" % nmark})
+    shutil.rmtree(dl, ignore_errors=True)
     if model_available:
         model, err = common.run_driver(lines)
         if model is None:
